@@ -138,6 +138,19 @@ def owner_closed(c, ws):
     return z3.And(zn(c.getf(ws, "sock")), z3.Not(z(c.getf(ws, "connected"), "bool")))
 
 
+def owner_exc_post(c, old, fb, exc_cls):
+    """Effect of a failed read on the WebSocket that owns the frame_buffer (through WebSocket._recv)."""
+    ws = recv_owner(c, fb, old)
+    if ws is None:
+        return z3.BoolVal(True)
+    if issubclass(exc_cls, X.WebSocketConnectionClosedException):
+        had = z3.Not(zn(old.getf(ws, "sock")))
+        return z3.And(owner_closed(c, ws), z(c.ghost["closed_handles"]) == z(old.ghost["closed_handles"]) + z3.If(had, 1, 0))
+    return z3.And(same_handle(c.getf(ws, "sock"), old.getf(ws, "sock")),
+                  z(c.getf(ws, "connected"), "bool") == z(old.getf(ws, "connected"), "bool"),
+                  z(c.ghost["closed_handles"]) == z(old.ghost["closed_handles"]))
+
+
 def havoc_rx(c):
     c.ghost["rpos"] = c.fresh("int", "rpos")
     c.ghost["rx_calls"] = c.fresh("int", "rx_calls")
@@ -187,7 +200,8 @@ def _install_strict(e):
         fb = a["self"]
         p0, n = ppos(c, fb, old), z(a["bufsize"], "int")
         return z3.And(RB(c, fb), ppos(c, fb) == p0,
-                      z3.Implies(slen(joined(c, fb, old)) <= n, z(c.ghost["rpos"]) <= p0 + n))
+                      z3.Implies(slen(joined(c, fb, old)) <= n, z(c.ghost["rpos"]) <= p0 + n),
+                      owner_exc_post(c, old, fb, exc.cls))
 
     def fb_mods(c, a, extra=()):
         fb = a["self"]
@@ -276,7 +290,8 @@ def install_frame(e):
         return consumed(c, old, a["self"])
 
     def rf_fail(c, old, a, exc):
-        return z3.And(FB(c, a["self"]), z(c.ghost["fstart"]) == z(old.ghost["fstart"]), z(c.ghost["lastf"]) == z(old.ghost["lastf"]))
+        return z3.And(FB(c, a["self"]), z(c.ghost["fstart"]) == z(old.ghost["fstart"]), z(c.ghost["lastf"]) == z(old.ghost["lastf"]),
+                      owner_exc_post(c, old, a["self"], exc.cls))
 
     def rf_result(c, a):
         return c.fresh(abnf_shape("bytes", "keysource"), "rframe")
@@ -509,7 +524,7 @@ def fold_step(c, op, fin, pay):
 
 def install_data(e):
     import websocket._core as core_mod
-    from .core import mk_ws, lock_ok, TRANSPORT_EXC
+    from .core import mk_ws, lock_ok, TRANSPORT_EXC, WSI, ghost_close
     K = "websocket._core:"
     PONG_OK = lambda op, pay: z3.And(op == 9, slen(pay) <= 125)
 
@@ -525,10 +540,16 @@ def install_data(e):
         c.ghost["npings"] = SV("int", z(c.ghost["npings"]) + z3.If(PONG_OK(op, pay), 1, 0))
     e.after_call[("WebSocket.recv_data_frame", "recv_frame")] = after_rf
 
+    def after_send_close(c, fr, r):
+        if "auto_close" in c.ghost:
+            c.ghost["auto_close"] = SV("int", z(c.ghost["auto_close"]) + 1)
+    e.after_call[("WebSocket.recv_data_frame", "send_close")] = after_send_close
+
     def rdf_case(fire):
         def case(c):
-            ws = mk_ws(c, fire=fire, recv_state="any", dispatcher=None)
+            ws = mk_ws(c, fire=fire, recv_state="any", dispatcher=None, keysrc="bytes")
             ghost_msg(c)
+            ghost_close(c)
             c.ghost["pong_acc"] = SV("bytes", smt.empty)
             c.ghost["npings"] = 0
             return dict(self=ws, control_frame=c.fresh("bool", "control_frame"))
@@ -541,7 +562,7 @@ def install_data(e):
 
     def rdf_req(c, a):
         ws, fb, cf = parts(c, a)
-        return z3.And(FB(c, fb), CF(c, cf))
+        return z3.And(FB(c, fb), CF(c, cf), WSI(c, ws))
 
     def wire_is(c, old, extra=None):
         w = cat(z(old.ghost["wire"]), z(c.ghost["pong_acc"]))
@@ -562,6 +583,8 @@ def install_data(e):
         mo, mop, md = z(c.ghost["m_open"], "bool"), z(c.ghost["m_op"]), z(c.ghost["m_data"])
         dr0 = z(old.ghost["draws"])
         npi = z(c.ghost["npings"], "int")
+        conn0 = z(old.getf(ws, "connected"), "bool")
+        ac0, ac1 = z(old.ghost["auto_close"]), z(c.ghost["auto_close"])
         isdata = z3.Or(d.opcode == 0, d.opcode == 1, d.opcode == 2)
         close_reply = spec.rfc_encode(1, 0, 0, 0, 8, 1, spec.keyfn(dr0 + npi), spec.be_bytes(z3.IntVal(1000), 2))
         common = z3.And(FB(c, fb), CF(c, cf), fop == d.opcode, ffin == d.fin,
@@ -575,8 +598,15 @@ def install_data(e):
         return z3.And(
             common,
             z3.Implies(isdata, z3.And(data_case, wire_is(c, old), z(c.ghost["draws"]) == dr0 + npi)),
-            z3.Implies(d.opcode == 8, z3.And(ctl_case, wire_is(c, old, close_reply), z(c.ghost["draws"]) == dr0 + npi + 1,
-                                             z3.Not(z(c.getf(ws, "connected"), "bool")))),
+            # a close frame is answered once: only while the connection is still marked connected (no close sent yet)
+            z3.Implies(z3.And(d.opcode == 8, conn0),
+                       z3.And(ctl_case, wire_is(c, old, close_reply), z(c.ghost["draws"]) == dr0 + npi + 1,
+                              z3.Not(z(c.getf(ws, "connected"), "bool")), ac1 == ac0 + 1)),
+            z3.Implies(z3.And(d.opcode == 8, z3.Not(conn0)),
+                       z3.And(ctl_case, wire_is(c, old), z(c.ghost["draws"]) == dr0 + npi,
+                              z3.Not(z(c.getf(ws, "connected"), "bool")), ac1 == ac0)),
+            z3.Implies(d.opcode != 8, z3.And(ac1 == ac0, z(c.getf(ws, "connected"), "bool") == conn0)),
+            WSI(c, ws),
             z3.Implies(z3.Or(d.opcode == 9, d.opcode == 10),
                        z3.And(z(a["control_frame"], "bool"), ctl_case, wire_is(c, old), z(c.ghost["draws"]) == dr0 + npi)),
             z3.Or(isdata, d.opcode == 8, d.opcode == 9, d.opcode == 10))
@@ -603,15 +633,16 @@ def install_data(e):
 
     def rdf_fail(c, old, a, exc):
         ws, fb, cf = parts(c, a)
-        return z3.And(FB(c, fb), CF(c, cf))
+        return z3.And(FB(c, fb), CF(c, cf), WSI(c, ws), z(c.ghost["auto_close"]) <= z(old.ghost["auto_close"]) + 1)
 
     def rdf_inv(c, fr, entry):
         ws = fr.locals["self"]
         fb, cf = c.getf(ws, "frame_buffer"), c.getf(ws, "cont_frame")
-        return z3.And(FB(c, fb), CF(c, cf), wire_is(c, entry),
+        return z3.And(FB(c, fb), CF(c, cf), wire_is(c, entry), WSI(c, ws),
+                      z(c.ghost["auto_close"]) == z(entry.ghost["auto_close"]),
                       z(c.ghost["draws"]) == z(entry.ghost["draws"]) + z(c.ghost["npings"], "int"), z(c.ghost["npings"], "int") >= 0)
 
-    GH = ["rpos", "rx_calls", "fstart", "lastf", "wire", "tx_calls", "draws", "m_open", "m_op", "m_data", "pong_acc", "npings"]
+    GH = ["rpos", "rx_calls", "fstart", "lastf", "wire", "tx_calls", "draws", "m_open", "m_op", "m_data", "pong_acc", "npings", "auto_close"]
 
     def havoc_ghosts(c):
         for g in GH:
@@ -672,8 +703,10 @@ def install_recv(e):
 
     def recv_case(fire):
         def case(c):
-            ws = mk_ws(c, fire=fire, recv_state="any", dispatcher=None)
+            from .core import ghost_close
+            ws = mk_ws(c, fire=fire, recv_state="any", dispatcher=None, keysrc="bytes")
             ghost_msg(c)
+            ghost_close(c)
             c.ghost["pong_acc"] = SV("bytes", smt.empty)
             c.ghost["npings"] = 0
             return dict(self=ws)
@@ -711,8 +744,9 @@ def install_recv(e):
         return z3.And(FB(c, c.getf(ws, "frame_buffer")), CF(c, cf), bad)
 
     def recv_req(c, a):
+        from .core import WSI
         ws = a["self"]
-        return z3.And(FB(c, c.getf(ws, "frame_buffer")), CF(c, c.getf(ws, "cont_frame")))
+        return z3.And(FB(c, c.getf(ws, "frame_buffer")), CF(c, c.getf(ws, "cont_frame")), WSI(c, ws))
     # the read lock must be held around the message-level read when entered through recv() (C12)
     base_req = rdf.requires
 
